@@ -114,6 +114,10 @@ def play(args):
             if not fed and L.live() and idx % 2 == 0:
                 # ordinary traffic on the link (a stuttering step for Link.tla): the gateway now knows nodes
                 L.data(b"1;255;0;0;17;2.2\n1;0;0;0;3;x\n1;0;1;0;2;1\n")
+                if idx % 4 == 0:
+                    # the gateway device itself (node 0) is a presented node with a child that announces smart sleep: the
+                    # keep-alive probes are addressed to node 0 and must reach the wire all the same
+                    L.data(b"0;255;0;0;18;2.2\n0;1;0;0;3;relay\n0;1;1;0;2;1\n0;255;3;0;32;500\n")
                 fed = True
             obs = L.observe()
             for k, g in enumerate(group):
